@@ -5,4 +5,4 @@ Extraction Language OCaml.
 Extraction "m_c16.ml" l0 uv_write2 uv_udp_send uv_fs_poll_start uv_fs_stat_async uv_fs_rename_async
   uv_os_environ uv_fs_event_start uv_getaddrinfo uv_spawn uv_accept_fd
   uv_async_send uv_async_io uv_signal_event uv_close_fd uv_read_step uv_loop_init maybe_resize
-  permitted strip N.succ Nat.add Z.add.
+  io_poll permitted strip N.succ Nat.add Z.add.
